@@ -8,8 +8,8 @@ import (
 	"encoding/hex"
 	"fmt"
 	"math/big"
+	"runtime"
 	"runtime/debug"
-	"runtime/metrics"
 	"strings"
 
 	vmcommon "github.com/ElrondNetwork/elrond-vm-common"
@@ -113,7 +113,7 @@ type Message struct {
 	Kind        int
 	TxItself    bool
 	IsRefund    bool
-	RefundOf    int // id of the message this refund answers
+	RefundOf    int         // id of the message this refund answers
 	Origin      *Call       // the call whose sender leg emitted it (for refunds: of the original message)
 	Moves       []TokenMove // tokens carried (from Origin's inputs)
 	OriginLeg   int
@@ -141,10 +141,11 @@ type Leg struct {
 	Emitted    []*Message
 	Deps       []world.DepCall
 	Discarded  []string
-	InputMut   string // non-empty: the call modified its input
+	InputMut   string      // non-empty: the call modified its input
 	Moves      []TokenMove // for transfer legs: the moves named by the call (sender form or message)
 	LogicalDst []byte
-	AllocBytes uint64 // heap bytes allocated during the call (only when Node.MeasureAlloc)
+	AllocBytes uint64         // heap bytes allocated during the call (only when Node.MeasureAlloc)
+	PayableAt  map[string]int // payability table at the time of the leg (only when Node.RecordPayable)
 }
 
 type Node struct {
@@ -156,7 +157,10 @@ type Node struct {
 	// KeepFailedDiff: record the raw (pre-rollback) diff for failed legs.
 	KeepRawDiff bool
 	// NoRollback leaves failed legs' effects in place (C17 inspects them itself).
-	MeasureAlloc bool
+	MeasureAlloc  bool
+	RecordPayable bool
+	// PreRun is called with the sequence number of the leg about to execute (fault plans).
+	PreRun func(seq int)
 }
 
 func New(w *world.World) *Node {
@@ -444,6 +448,15 @@ func (n *Node) run(side int, shard uint32, c Call, msg *Message, snd, dst *world
 		return leg
 	}
 	leg.Pre = w.Snapshot()
+	if n.RecordPayable {
+		leg.PayableAt = map[string]int{}
+		for k, v := range w.Payable {
+			leg.PayableAt[k] = v
+		}
+	}
+	if n.PreRun != nil {
+		n.PreRun(leg.Seq)
+	}
 	bi := buildInput(c)
 	leg.Input = bi.in
 	w.Log = w.Log[:0]
@@ -507,11 +520,33 @@ func (n *Node) run(side int, shard uint32, c Call, msg *Message, snd, dst *world
 	return leg
 }
 
-var allocSample = []metrics.Sample{{Name: "/gc/heap/allocs:bytes"}}
-
+// heapAllocs: cumulative bytes allocated. ReadMemStats flushes the per-P caches, so the delta
+// around a call is exact (the cheaper runtime/metrics counter is only updated in bursts).
 func heapAllocs() uint64 {
-	metrics.Read(allocSample)
-	return allocSample[0].Value.Uint64()
+	var ms runtime.MemStats
+	runtime.ReadMemStats(&ms)
+	return ms.TotalAlloc
+}
+
+// Replay re-executes a recorded leg (same side, shard, call, account-presence pattern) on this
+// node's world, without touching the pool of the original node.
+func (n *Node) Replay(l *Leg) *Leg {
+	sh := n.W.Shards[l.Shard]
+	var snd, dst *world.Account
+	if l.SndPresent {
+		snd = sh.Get(l.Call.Caller)
+	}
+	if l.DstPresent {
+		dst = sh.Get(l.Call.Recipient)
+	}
+	c := l.Call
+	c.Args = cloneArgs(c.Args)
+	var msg *Message
+	if l.Msg != nil {
+		m := *l.Msg
+		msg = &m
+	}
+	return n.run(l.Side, l.Shard, c, msg, snd, dst)
 }
 
 func (n *Node) notify(l *Leg) {
